@@ -446,7 +446,7 @@ func TestVerifOwnership(t *testing.T) {
 // part 2: the decision function of DeliverMessagesToShardOwner / DeliverAckToShardOwner on every combination of
 // local channel state, memberlist configuration, known owner, known address, intra-proxy manager, peer stream state.
 //
-//	DV msg|ack <none|accepted|shutdown|closed|closedshutdown> ml owner addr mgr <ok|err|absent> fwd  ->  DV <result> <local|remote|nobody>
+//	DV msg|ack <none|accepted|shutdown|closed|closedshutdown> ml owner addr mgr <ok|err|absent|nostream> fwd  ->  DV <result> <local|remote|nobody>
 
 type vdServerStream struct {
 	adminservice.AdminService_StreamWorkflowReplicationMessagesServer
@@ -513,6 +513,10 @@ func vdRun(f []string, loggers logging.LoggerProvider) string {
 	cli := &vdClientStream{fail: peer == "err"}
 	if sm.intraMgr != nil && peer != "absent" {
 		key := peerStreamKey{targetShard: target, sourceShard: source}
+		if peer == "nostream" {
+			// the peer is known and has streams, but none for this shard pair
+			key = peerStreamKey{targetShard: history.ClusterShardID{ClusterID: 2, ShardID: 9}, sourceShard: history.ClusterShardID{ClusterID: 1, ShardID: 9}}
+		}
 		sm.intraMgr.peers["n1"] = &peerState{
 			senders:   map[peerStreamKey]*intraProxyStreamSender{key: {logger: tlog.NewNoopLogger(), shardManager: sm, peerNodeName: "n1", targetShardID: target, sourceShardID: source, sourceStreamServer: srv}},
 			receivers: map[peerStreamKey]*intraProxyStreamReceiver{key: {logger: tlog.NewNoopLogger(), shardManager: sm, peerNodeName: "n1", targetShardID: target, sourceShardID: source, streamClient: cli}},
